@@ -413,11 +413,9 @@ impl Server {
     }
 
     fn did_rename_files(&mut self, new_path: Url) {
-        // Do not dispatch if there's already a pending analysis
-        if !self.background_done {
-            return;
-        }
-
+        // A pending pass holds the path list from before the rename, so it
+        // never sees the file under its new name: always queue a pass with
+        // the current path list.
         self.background_done = false;
         if let Some(mut metadata) = self.get_metadata(&new_path) {
             if let Ok(paths) = metadata.paths::<&str>(&[], true, true) {
